@@ -27,6 +27,10 @@ rc, out = sh("git status --short", cwd="/repo")
 assert out.strip() == "", "/repo is not clean: " + out
 results = {}
 t0 = time.time()
+# the evidence files must describe runs on the unchanged tree: keep them aside while the patched tree is checked
+EV_BAK = "/verif/.cache/evidence-backup"
+shutil.rmtree(EV_BAK, ignore_errors=True)
+shutil.copytree("/verif/evidence", EV_BAK)
 try:
     rc, out = sh(f"git apply {SRC}/patch.diff", cwd="/repo")
     assert rc == 0, out
@@ -49,6 +53,8 @@ try:
 finally:
     sh("git checkout -- .", cwd="/repo")
     sh("git clean -fdq src", cwd="/repo")
+    shutil.rmtree("/verif/evidence", ignore_errors=True)
+    shutil.copytree(EV_BAK, "/verif/evidence")
 caught_by = sorted(p for p, r in results.items() if r["exit"] != 0)
 with_input = sorted(p for p, r in results.items() if any(v["kind"] == "oracle" for v in r["violations"]))
 prop = json.load(open(f"/tmp/mut/{ID}-out/property.json"))
